@@ -4071,6 +4071,19 @@ func (l *channelLink) resumeLink(ctx context.Context) error {
 		l.cg.WgAdd(1)
 		go l.fwdPkgGarbager()
 
+		// If we shut down after revoking our prior commitment (thereby
+		// acking the remote party's updates) but before signing a new
+		// commitment for them, neither side retransmits anything during
+		// the channel re-establishment and no local update is pending
+		// that would arm the batch ticker. Send the owed signature now,
+		// otherwise the remote updates stay half-committed until some
+		// unrelated update happens to trigger a state transition.
+		if l.channel.OweCommitment() {
+			if !l.updateCommitTxOrFail(ctx) {
+				return ErrLinkShuttingDown
+			}
+		}
+
 		return nil
 
 	// If the duplicate keystone error was encountered, we'll fail without
